@@ -115,6 +115,13 @@ def window_cells(ctx, RULE, include_beyond=True):
                 bad = [o for o in outs2 if o.kind == "raise" or not any(e.startswith("self.current_seqnum =") for e in o.events)]
                 ctx.check(not bad and outs2, RULE, fi, site, "a newer sequence number is accepted and becomes the current one",
                           witness=[repr(o) for o in bad][:2])
+                if name == "newer inside window":
+                    # ... and the record of what was received moves with it: shifted, never wiped, as long as the step is no wider
+                    # than the window (a window cleared by a jump of 33 in a 256-wide field forgets every message before the gap)
+                    wiped = [o for o in outs2 if o.kind != "raise" and (any(e.replace(" ", "") in ("self.bits=0", "self.bits=(0)") for e in o.events)
+                                                                         or not any(e.startswith("self.bits") and ">>" in e for e in o.events))]
+                    ctx.check(not wiped and outs2, RULE, fi, site + " (history)", "a step inside the window shifts the bitmap, it does not clear it",
+                              witness=[repr(o) for o in wiped][:2])
             elif name == "current":
                 bad = [o for o in outs2 if o.kind != "raise" or "DuplicationError" not in str(o.value)]
                 ctx.check(not bad and outs2, RULE, fi, site, "re-inserting the current sequence number raises DuplicationError",
